@@ -44,6 +44,8 @@ pub enum Sem {
     Lift,
     /// (Bool, T) -> T: the second argument whenever the first has a value
     Pick,
+    /// identity on nested containers (the result is an owned container)
+    Own,
 }
 
 #[derive(Clone, Debug)]
